@@ -150,3 +150,40 @@ def _c17(eng):
 REG.pylemma('C17-ids', ['C17'], _c17,
             note='LEN-ALPHA, INJ/BITS, WINDOW over the spec function sid_of; library axioms '
                  'B64-15, BE3, REPL1 instantiated explicitly')
+
+# ------------------------------------------------------------------------------------------ C13
+from .schemas import ENV, HEADERS, RESP  # noqa: E402
+
+CFG_OK = ('self.cors_allowed_origins is None or isinstance(self.cors_allowed_origins, str) or '
+          'typeis(self.cors_allowed_origins, "liststr") or callable(self.cors_allowed_origins)')
+
+c = REG.contract('base_server.BaseServer._cors_allowed_origins', props=['C13'])
+c.param('self', Ref('BaseServer')).param('environ', ENV)
+c.returns(ANY)
+c.requires(CFG_OK, 'config-shape')
+c.ensures('star-allows-all', "(result is None) == (self.cors_allowed_origins == '*')")
+c.ensures('shape', "implies('HTTP_ORIGIN' in environ, result is None or typeis(result, 'liststr'))")
+c.ensures('membership-of-request-origin',
+          "implies(result is not None and isinstance(environ.get('HTTP_ORIGIN'), str), "
+          "(environ.get('HTTP_ORIGIN') in result) == "
+          "origin_allowed(self.cors_allowed_origins, environ, environ.get('HTTP_ORIGIN')))")
+
+c = REG.contract('base_server.BaseServer._cors_headers', props=['C13'])
+c.param('self', Ref('BaseServer')).param('environ', ENV)
+c.returns(HEADERS)
+c.requires(CFG_OK, 'config-shape')
+c.requires("'REQUEST_METHOD' in environ", 'method-present')
+c.ensures('disabled', 'implies(self.cors_allowed_origins == [], result == [])')
+c.ensures('never-over-grants',
+          "forall(lambda k: implies(result[k][0] == 'Access-Control-Allow-Origin', "
+          "acao_expected(self.cors_allowed_origins, environ) and "
+          "result[k][1] == environ['HTTP_ORIGIN']), 0, len(result))")
+c.ensures('grants-allowed',
+          "implies(acao_expected(self.cors_allowed_origins, environ), "
+          "result[0] == ('Access-Control-Allow-Origin', environ['HTTP_ORIGIN']))")
+c.ensures('credentials-only-when-enabled',
+          "implies(self.cors_allowed_origins != [], "
+          "(('Access-Control-Allow-Credentials', 'true') in result) == self.cors_credentials)")
+c.ensures('credentials-header-only-true',
+          "forall(lambda k: implies(result[k][0] == 'Access-Control-Allow-Credentials', "
+          "self.cors_credentials and result[k][1] == 'true'), 0, len(result))")
